@@ -7,10 +7,10 @@
 #include <map>
 
 enum { SC_LOAD_RSA = 0, SC_LOAD_EC_ALL, SC_NEW_SESSIONS, SC_TLS12_RSA, SC_TLS12_ECDSA_CAUTH, SC_TLS11_ECDHE_RSA, SC_TLS12_RESUME_ID, SC_TLS12_RESUME_TICKET,
-       SC_TLS13_FULL, SC_TLS13_PSK_RESUME, SC_TLS13_CAUTH, SC_DTLS12_FRAG, SC_TLS12_PSK, SC_DATA_GROWTH, SC_TLS12_TICKET_REISSUE, SC_TLS13_HRR_SNI,
+       SC_TLS13_FULL, SC_TLS13_PSK_RESUME, SC_TLS13_CAUTH, SC_DTLS12_FRAG, SC_TLS12_PSK, SC_DATA_GROWTH, SC_TLS12_TICKET_REISSUE, SC_TLS13_HRR_SNI, SC_TLS12_EXT_LIST, SC_TLS13_EXT_LIST,
        SC_NEG_UNKNOWN_CA_12, SC_NEG_UNKNOWN_CA_13, SC_NEG_BAD_SIG_12, SC_NEG_BAD_SIG_13, SC_NEG_FORGED_CERT_12, SC_NEG_FORGED_CERT_13, SC_NEG_FORGED_CERT_RSA_12, SC_N };
 static const char *SC_NAME[] = { "load_rsa", "load_ec_all", "new_sessions", "tls12_rsa", "tls12_ecdsa_cauth", "tls11_ecdhe_rsa", "tls12_resume_id", "tls12_resume_ticket",
-                                 "tls13_full", "tls13_psk_resume", "tls13_cauth", "dtls12_frag", "tls12_psk", "data_growth", "tls12_ticket_reissue", "tls13_hrr_sni",
+                                 "tls13_full", "tls13_psk_resume", "tls13_cauth", "dtls12_frag", "tls12_psk", "data_growth", "tls12_ticket_reissue", "tls13_hrr_sni", "tls12_ext_list", "tls13_ext_list",
                                  "neg_unknown_ca_12", "neg_unknown_ca_13", "neg_bad_sig_12", "neg_bad_sig_13", "neg_forged_cert_12", "neg_forged_cert_13", "neg_forged_cert_rsa_12" };
 static bool sc_negative(int s) { return s >= SC_NEG_UNKNOWN_CA_12; }
 
@@ -36,6 +36,8 @@ static PairCfg sc_cfg(int s) {
     case SC_TLS13_PSK_RESUME: pc.version = v_tls_1_3; pc.suites = { TLS_CHACHA20_POLY1305_SHA256 }; pc.server_identity = KK_EC256; pc.tickets = true; break;
     case SC_TLS13_CAUTH: pc.version = v_tls_1_3; pc.suites = { TLS_AES_256_GCM_SHA384 }; pc.server_identity = KK_RSA2048; pc.client_identity = KK_EC256; pc.client_auth = true; break;
     case SC_TLS13_HRR_SNI: pc.version = v_tls_1_3; pc.suites = { TLS_AES_128_GCM_SHA256 }; pc.server_identity = KK_EC256; pc.expected_name = "localhost"; pc.send_sni = true; pc.groups_c = { 23, 24 }; pc.key_shares = 1; pc.groups_s = { 24 }; break;   // server_name parsed twice (HelloRetryRequest)
+    case SC_TLS12_EXT_LIST: pc.version = v_tls_1_2; pc.suites = { TLS_ECDHE_RSA_WITH_AES_128_GCM_SHA256 }; pc.server_identity = KK_RSA2048; pc.expected_name = "localhost"; pc.send_sni = 3; break;   // the client application passes a three-entry hello extension list (copied node by node)
+    case SC_TLS13_EXT_LIST: pc.version = v_tls_1_3; pc.suites = { TLS_AES_128_GCM_SHA256 }; pc.server_identity = KK_EC256; pc.expected_name = "localhost"; pc.send_sni = 2; break;
     case SC_DTLS12_FRAG: pc.version = v_dtls_1_2; pc.suites = { TLS_ECDHE_ECDSA_WITH_AES_128_GCM_SHA256 }; pc.server_identity = KK_EC256; break;
     case SC_TLS12_PSK: pc.version = v_tls_1_2; pc.suites = { TLS_PSK_WITH_AES_128_CBC_SHA256 }; pc.server_identity = KK_NONE; pc.psk = true; break;
     case SC_DATA_GROWTH: pc.version = v_tls_1_2; pc.suites = { TLS_ECDHE_ECDSA_WITH_AES_128_GCM_SHA256 }; pc.server_identity = KK_EC256; break;
